@@ -68,3 +68,15 @@ Record call_edge := mkCall {
   c_line : Z;
   c_init : bool
 }.
+
+(* a stored shallow copy of a struct value whose type carries references
+   (`out := *o`, `x := o` for a struct-valued o, `&o` of a by-value parameter or
+   receiver): the copy aliases whatever the reference-typed fields of the
+   original point to (channels, maps, slices, pointers) *)
+Record copy_site := mkCopy {
+  k_type : string;     (* "pkg.Type" of the copied value *)
+  k_func : string;
+  k_file : string;
+  k_line : Z;
+  k_detail : string
+}.
